@@ -1284,7 +1284,7 @@ def evaluate__json_to_xml(self: XPathFunction, context: ta.ContextType = None) \
         raise self.missing_context()
 
     def _fallback(*a: Any, **kw: Any) -> str:
-        return '&#xFFFD;'
+        return '\uFFFD'
 
     liberal = False
     validate = False
